@@ -326,7 +326,9 @@ pub fn replay(ctx: &Ctx, rep: &Report, check_name: &str, case: &Value) -> CheckR
         cold_start(ctx, rep);
         return if rep.violation_count() > before { Err(Fail { check: check_name.into(), site: "reproduced-under-contention".into(), msg: "the contention check fails again".into(), case: case.clone() }) } else { Ok(()) };
     }
-    let c: Case = serde_json::from_value(case.clone()).map_err(|e| Fail {
+    // failure records hold the case itself; panics caught by the engine wrap it as {"case": ...}
+    let inner = if case.get("case").map(|c| c.is_object()).unwrap_or(false) { &case["case"] } else { case };
+    let c: Case = serde_json::from_value(inner.clone()).map_err(|e| Fail {
         check: check_name.into(),
         site: "replay-parse".into(),
         msg: e.to_string(),
